@@ -53,6 +53,12 @@ struct Sink {
     tiers: BTreeMap<String, u64>,
     lines: u64,
     cases: u64,
+    /// tier monitor: observations for the Lean automaton (`tier …` lines, every answer is `ok`)
+    tops: std::io::BufWriter<std::fs::File>,
+    tlines: u64,
+    /// copies of one generation that differ from one another (implementation-level oracle)
+    tfail: Vec<String>,
+    opno: u64,
 }
 
 impl Sink {
@@ -136,7 +142,42 @@ fn new_device(path: &str, blocks: u64, version: u32) {
     }
 }
 
+/// after every call: where the current generation of every key of the case lives (resident bytes,
+/// device, cache entry of that generation) - for the tier automaton `Feox.Kv.Tiers` - and whether
+/// all copies agree
+fn observe_tiers(sut: &mut Sut, s: &mut Sink, fresh: bool) {
+    let Some(st) = sut.store.clone() else { return };
+    s.opno += 1;
+    if fresh { writeln!(s.tops, "tier new").unwrap(); s.tlines += 1; }
+    writeln!(s.tops, "tier at {} {}", s.cases, s.opno).unwrap();
+    s.tlines += 1;
+    for (i, k) in sut.keys.iter().enumerate() {
+        match st.verif_tiers(k) {
+            None => writeln!(s.tops, "tier {} -", i).unwrap(),
+            Some(t) => {
+                let gen = (t.timestamp ^ (t.id as u64).rotate_left(17)) % 1_000_000_007;
+                writeln!(s.tops, "tier {} {} {} {} {}", i, gen, t.resident.is_some() as u8, t.on_disk.is_some() as u8, t.cached.is_some() as u8).unwrap();
+                let copies: Vec<(&str, &Vec<u8>)> = [("resident", &t.resident), ("device", &t.on_disk), ("cache", &t.cached)].iter().filter_map(|(n, c)| c.as_ref().map(|c| (*n, c))).collect();
+                *s.tiers.entry(format!("tiers r{}d{}c{}", t.resident.is_some() as u8, t.on_disk.is_some() as u8, t.cached.is_some() as u8)).or_insert(0) += 1;
+                for w in copies.windows(2) {
+                    if w[0].1 != w[1].1 && s.tfail.len() < 5 {
+                        s.tfail.push(format!("case {} after call {}: key {} (ts {}): the {} copy ({} bytes, {}) and the {} copy ({} bytes, {}) of one generation differ",
+                            s.cases, s.opno, hex(k), t.timestamp, w[0].0, w[0].1.len(), fnv(w[0].1), w[1].0, w[1].1.len(), fnv(w[1].1)));
+                    }
+                }
+            }
+        }
+        s.tlines += 1;
+    }
+}
+
 fn exec(sut: &mut Sut, s: &mut Sink, op: &Op) {
+    let fresh = matches!(op, Op::Reopen { .. });
+    exec_call(sut, s, op);
+    observe_tiers(sut, s, fresh);
+}
+
+fn exec_call(sut: &mut Sut, s: &mut Sink, op: &Op) {
     feoxdb::verif::clock::pin(sut.now);
     let now = sut.now;
     match op {
@@ -330,7 +371,7 @@ fn start_case(sut: &mut Sut, s: &mut Sink, recsize: usize) -> bool {
         sut.cfg.max.map(|m| m.to_string()).unwrap_or_else(|| "none".into()), recsize, sut.cfg.cache as u8, sut.cfg.blocks
     );
     match r {
-        Ok(()) => { s.emit("cfg", line, "ok".into()); true }
+        Ok(()) => { s.emit("cfg", line, "ok".into()); s.opno = 0; observe_tiers(sut, s, true); true }
         Err(e) => { s.emit("cfg", line, format!("err {}", err_name(&e))); false }
     }
 }
@@ -407,7 +448,9 @@ fn gen_op(rng: &mut Rng, sut: &Sut, last_explicit: &mut u64) -> Op {
             let k = pick_key(rng);
             let cur = sut.st().verif_peek_value(&k);
             let e = match (cur, rng.below(4)) { (Some(c), 0..=2) => c, _ => gen_value(rng) };
-            Op::Cas { k, e, n: gen_value(rng), ts: gen_ts(rng, now, last_explicit), ttl: if rng.chance(1, 4) { gen_ttl(rng) } else { 0 } }
+            // (a swap of a value for itself is a write like any other: new version, TTL handling)
+            let n = if rng.chance(1, 5) { e.clone() } else { gen_value(rng) };
+            Op::Cas { k, e, n, ts: gen_ts(rng, now, last_explicit), ttl: if rng.chance(1, 4) { gen_ttl(rng) } else { 0 } }
         }
         62..=68 => Op::Inc { k: pick_key(rng), d: *rng.pick(&[1i64, -1, 5, i64::MAX, i64::MIN, 1000]), ts: gen_ts(rng, now, last_explicit), ttl: if rng.chance(1, 4) { gen_ttl(rng) } else { 0 } },
         69..=72 => Op::IfAbs { k: pick_key(rng), v: gen_value(rng) },
@@ -471,7 +514,9 @@ fn gen_case(rng: &mut Rng, s: &mut Sink, dir: &str, recsize: usize, cfg: Cfg, le
                 _ => exec(&mut sut, s, &Op::Ins { k: k.clone(), v: gen_value(rng), ts: None, ttl: 0, api: false, bytes_api: false }),
             }
             exec(&mut sut, s, &Op::Get { k: k.clone(), bytes_api: false });
-            exec(&mut sut, s, &Op::Cas { k: k.clone(), e: v.clone(), n: gen_value(rng), ts: None, ttl: 0 });
+            let swap_to = if rng.chance(1, 3) { v.clone() } else { gen_value(rng) };
+            exec(&mut sut, s, &Op::Cas { k: k.clone(), e: v.clone(), n: swap_to, ts: None, ttl: 0 });
+            exec(&mut sut, s, &Op::TtlQ { k: k.clone() });
             exec(&mut sut, s, &Op::Range { a: vec![], b: vec![0xFF; 8], lim: 100 });
             exec(&mut sut, s, &Op::Advance { ns: 3_000_000_000 });
             exec(&mut sut, s, &Op::Get { k: k.clone(), bytes_api: true });
@@ -605,7 +650,8 @@ fn main() {
     let args = parse_args();
     std::fs::create_dir_all(&args.out).unwrap();
     let open = |n: &str| std::io::BufWriter::new(std::fs::File::create(format!("{}/{}", args.out, n)).unwrap());
-    let mut s = Sink { ops: open("kv.ops"), imp: open("kv.impl"), hist: BTreeMap::new(), errs: BTreeMap::new(), tiers: BTreeMap::new(), lines: 0, cases: 0 };
+    let mut s = Sink { ops: open("kv.ops"), imp: open("kv.impl"), hist: BTreeMap::new(), errs: BTreeMap::new(), tiers: BTreeMap::new(), lines: 0, cases: 0,
+        tops: open("kv.tiers.ops"), tlines: 0, tfail: vec![], opno: 0 };
     let recsize = feoxdb::verif::pure::record_struct_size();
     feoxdb::verif::io::disable_ring(true);
     feoxdb::verif::proto::fast_shutdown(true);
@@ -632,6 +678,8 @@ fn main() {
     }
     s.ops.flush().unwrap();
     s.imp.flush().unwrap();
+    s.tops.flush().unwrap();
+    std::fs::write(format!("{}/kv.tiers.fail", args.out), s.tfail.iter().map(|l| format!("{}\n", l)).collect::<String>()).unwrap();
     let j = |m: &BTreeMap<String, u64>| m.iter().map(|(k, v)| format!("\"{}\": {}", k, v)).collect::<Vec<_>>().join(", ");
     let meta = format!(
         "{{\"engine\": \"kv\", \"seed\": {}, \"lines\": {}, \"cases\": {}, \"recsize\": {}, \"ops\": {{{}}}, \"errors\": {{{}}}, \"read_tiers\": {{{}}}}}\n",
